@@ -194,14 +194,32 @@ func (p *rawPeer) respond(conn net.Conn) {
 			}
 			if rq.op != primitive.OpCodeStartup {
 				// any kind of final response must free the id: vary it (never a fatal error code: the client
-				// closes the connection on those)
-				switch p.rng.Intn(4) {
+				// closes the connection on those). A quarter of the requests get a non-final continuous page first.
+				if p.rng.Intn(4) == 0 {
+					md := &message.RowsMetadata{ContinuousPageNumber: 1}
+					if p.rng.Bool() {
+						md.PagingState = []byte{0xbe, 0xef}
+					}
+					page := frame.NewFrame(p.cfg.Version, rq.id, &message.RowsResult{Metadata: md, Data: message.RowSet{}})
+					if err := codec.EncodeFrame(page, conn); err != nil {
+						return
+					}
+				}
+				switch p.rng.Intn(7) {
 				case 0:
 					msg = &message.Invalid{ErrorMessage: "c09"}
 				case 1:
 					msg = &message.VoidResult{}
 				case 2:
 					msg = &message.Unavailable{ErrorMessage: "c09", Consistency: primitive.ConsistencyLevelOne, Required: 1, Alive: 0}
+				case 3:
+					msg = &message.RowsResult{Metadata: &message.RowsMetadata{ContinuousPageNumber: 2, LastContinuousPage: true}, Data: message.RowSet{}}
+				case 4:
+					// the last page of a continuous-paging session that was ended by its page limit: it still has a paging state
+					msg = &message.RowsResult{Metadata: &message.RowsMetadata{ContinuousPageNumber: 2, LastContinuousPage: true,
+						PagingState: []byte{0xca, 0xfe}}, Data: message.RowSet{}}
+				case 5:
+					msg = &message.RowsResult{Metadata: &message.RowsMetadata{PagingState: []byte{0xca, 0xfe}}, Data: message.RowSet{}}
 				}
 			}
 			if err := codec.EncodeFrame(frame.NewFrame(p.cfg.Version, rq.id, msg), conn); err != nil {
@@ -226,6 +244,15 @@ func (p *rawPeer) unansweredCount() int {
 	p.mu.Lock()
 	defer p.mu.Unlock()
 	return len(p.unans)
+}
+
+// finalBySpec: every response ends its request except a continuous-paging page (RESULT/Rows with the continuous
+// paging flag, i.e. a page number) that is not flagged as the last one. Whether a paging state is present is irrelevant.
+func finalBySpec(f *frame.Frame) bool {
+	if rows, ok := f.Body.Message.(*message.RowsResult); ok && rows.Metadata != nil && rows.Metadata.ContinuousPageNumber > 0 {
+		return rows.Metadata.LastContinuousPage
+	}
+	return true
 }
 
 func runSockCfg(c *mon.Ctx, cfg sockCfg, stream uint64) {
@@ -255,7 +282,7 @@ func runSockCfg(c *mon.Ctx, cfg sockCfg, stream uint64) {
 	}
 	defer conn.Close()
 
-	var accepted, refused, mismatched, recvErr, clientRange, outstanding, starved atomic.Int64
+	var accepted, refused, mismatched, recvErr, clientRange, outstanding, starved, pages atomic.Int64
 	var stuck, abort atomic.Bool
 	var wg sync.WaitGroup
 	deadline := time.Now().Add(90 * time.Second) // workload watchdog, never a verdict
@@ -301,12 +328,20 @@ func runSockCfg(c *mon.Ctx, cfg sockCfg, stream uint64) {
 				if id := req.StreamId(); id < 1 || int(id) > cfg.N {
 					clientRange.Add(1)
 				}
-				resp, err := conn.Receive(req)
-				switch {
-				case err != nil || resp == nil:
-					recvErr.Add(1)
-				case resp.Header.StreamId != req.StreamId():
-					mismatched.Add(1)
+				// read until the response that is final BY THE PROTOCOL (not by the library's own classification)
+				for {
+					resp, err := conn.Receive(req)
+					if err != nil || resp == nil {
+						recvErr.Add(1)
+						break
+					}
+					if resp.Header.StreamId != req.StreamId() {
+						mismatched.Add(1)
+					}
+					if finalBySpec(resp) {
+						break
+					}
+					pages.Add(1)
 				}
 				outstanding.Add(-1)
 				done++
@@ -317,6 +352,7 @@ func runSockCfg(c *mon.Ctx, cfg sockCfg, stream uint64) {
 	c.Eval(1)
 	c.Count("sock_requests_accepted/"+v, accepted.Load())
 	c.Count("sock_sends_refused/"+v, refused.Load())
+	c.Count("sock_non_final_pages_received/"+v, pages.Load())
 	c.Count("sock_response_id_mismatch(C10,not_judged)/"+v, mismatched.Load())
 	c.Count("sock_receive_errors(not_judged)/"+v, recvErr.Load())
 	if starved.Load() > 0 {
@@ -383,7 +419,11 @@ func runSockCfg(c *mon.Ctx, cfg sockCfg, stream uint64) {
 	default:
 	}
 	for _, r := range reqs {
-		conn.Receive(r)
+		for {
+			if resp, err := conn.Receive(r); err != nil || resp == nil || finalBySpec(resp) {
+				break
+			}
+		}
 	}
 
 	peer.mu.Lock()
